@@ -61,6 +61,43 @@ func init() {
 		}
 		return enhex(s.got) + " " + r
 	}
+	// indent2 <p1> <p2> (L <chunk> <acc> | U <chunk> <acc> | N)* : upper = NewWriter(lower, p2), lower = NewWriter(s, p1)
+	handlers["indent2"] = func(t []string) string {
+		p1, p2 := string(unhex(t[0])), string(unhex(t[1]))
+		s := &scripted{}
+		lower := indent.NewWriter(s, p1)
+		upper := indent.NewWriter(lower, p2)
+		var rs []string
+		for i := 2; i < len(t); {
+			if t[i] == "N" {
+				upper = indent.NewWriter(lower, p2)
+				i++
+				continue
+			}
+			w := lower
+			if t[i] == "U" {
+				w = upper
+			}
+			s.script = []string{t[i+2]}
+			s.i = 0
+			buf := unhex(t[i+1])
+			if buf == nil {
+				buf = []byte{}
+			}
+			n, err := w.Write(buf)
+			e := "ok"
+			if err != nil {
+				e = "E"
+			}
+			rs = append(rs, fmt.Sprintf("%d:%s", n, e))
+			i += 3
+		}
+		r := strings.Join(rs, ",")
+		if r == "" {
+			r = "-"
+		}
+		return enhex(s.got) + " " + r
+	}
 	// bytes <prefix> <text> : both one-shot functions, must agree
 	handlers["bytes"] = func(t []string) string {
 		p, b := unhex(t[0]), unhex(t[1])
